@@ -127,6 +127,7 @@ static void run_orace(const Toks &t, Out &o)
   }
   if (!have_sched) { o.tag("BADCASE"); return; }
 
+  std::string history;
   std::vector<std::unique_ptr<Slot>> slots;
   for (int i = 0; i < MAXI; i++)
     for (int s = 0; s < NS; s++) slots.emplace_back(new Slot{i, s});
@@ -196,9 +197,10 @@ static void run_orace(const Toks &t, Out &o)
     if (!threads.empty()) S.run_all();
     // one more collection by the controller, after all threads have finished
     exec(Op{'C', 1, 0, 0});
+    history = S.log_line();   // the destructors of the instruments still alive are not part of the history
   }
   o.tag("OK").tag("||");
-  o.add(S.log_line());
+  o.add(history);
 }
 
 int main(int argc, char **argv)
